@@ -43,10 +43,14 @@ func (c *Conversation) processAKE(msgType byte, msg []byte) (toSend []messageWit
 		c.ake.state, toSendSingle, err = c.ake.state.receiveDHKeyMessage(c, msg)
 	case msgTypeRevealSig:
 		c.ake.state, toSendSingle, err = c.ake.state.receiveRevealSigMessage(c, msg)
-		toSendExtra = c.retransmitAfterAKE()
+		if err == nil {
+			toSendExtra = c.retransmitAfterAKE()
+		}
 	case msgTypeSig:
 		c.ake.state, toSendSingle, err = c.ake.state.receiveSigMessage(c, msg)
-		toSendExtra = c.retransmitAfterAKE()
+		if err == nil {
+			toSendExtra = c.retransmitAfterAKE()
+		}
 	default:
 		err = newOtrErrorf("unknown message type 0x%X", msgType)
 	}
